@@ -103,12 +103,18 @@ def setName (sheets : List Sheet) (i : Nat) (new : String) : List Sheet :=
 def rewriteFormula (fixed : Bool) (F : Fold) (b : Book) (i : Nat) (new : String) (ctx : String) (f : SNode) : SNode :=
   strip (renameSheetInNode fixed i new (resolve F b.sheetNames b.namesWithScope ctx f))
 
+/-- `get_sheet_index_by_name(new_name)` finds a sheet other than the one being renamed -/
+def nameTaken (F : Fold) (names : List String) (i : Nat) (new : String) : Bool :=
+  match sheetIndexUp F names new with
+  | some j => j != i
+  | none => false
+
 /-- models base/src/new_empty.rs::Model::rename_sheet_by_index (the language used to re-parse the
     defined names is modelled in Book/Names.lean; after the F10a repair it is the internal one, so
     names are rewritten exactly like cell formulas, with the old name of the sheet as context) -/
 def renameSheet (fixed : Bool) (F : Fold) (b : Book) (i : Nat) (new : String) : Except OpErr Book :=
   if !isValidSheetName new then .error .invalidName
-  else if (match sheetIndexUp F b.sheetNames new with | some j => decide (j ≠ i) | none => false) then .error .nameExists
+  else if nameTaken F b.sheetNames i new then .error .nameExists
   else match b.sheets[i]? with
     | none => .error .badIndex
     | some old =>
